@@ -7,7 +7,7 @@ META = {
                  "of compile_quote/render_quoted_form + evaluation of the emitted constructor forms equals a reference "
                  "substitution written from the documentation; promoted form via a lemma on FString joining; "
                  "extracted-model differential run and reference oracle on the real quasiquote",
-    "level_text": "Theorems C31_quasiquote_correct(_any_depth), C31_quasiquote_promoted, C31_rejected_is_static_error "
+    "level_text": "Theorems C31_quasiquote_correct(_any_depth)_partial, C31_quasiquote_promoted_partial, C31_rejected_is_static_error "
                   "(coq/Props/C31.v) hold for every well-formed template the documentation gives a meaning to, at every "
                   "nesting depth, in every sequence kind, for every state-passing environment (so order and number of "
                   "evaluations of the unquoted forms are part of the statement); no bound on size or depth. Literal parts "
@@ -296,9 +296,9 @@ def run(chk):
         # ---- the theorems' instances, evaluated by the extracted model
         if mo["wf"] and mo["valid"]:
             if mo["run"] != mo["ref"]:
-                bad_instances.append("C31_quasiquote_correct: " + repr(inp)[:300])
+                bad_instances.append("C31_quasiquote_correct_partial: " + repr(inp)[:300])
             if mo["run"][0][0] == "Ok" and mo["as_model"][0] == "Ok" and mo["ref_p"] != (mo["as_model"], mo["run"][1]):
-                bad_instances.append("C31_quasiquote_promoted: " + repr(inp)[:300])
+                bad_instances.append("C31_quasiquote_promoted_partial: " + repr(inp)[:300])
         if mo["rejected"] and not (mo["run"][0][0] == "Err" and mo["run"][0][1] in ("EArity", "ESyntaxUnpack") and mo["run"][1] == []):
             bad_instances.append("C31_rejected_is_static_error: " + repr(inp)[:300])
         # ---- the property, on the real code, against the reference
